@@ -143,6 +143,29 @@ func (r *GoStructRegistryType) RegisterScriptdef(e *RegisteredType, names ...str
 	}
 }
 
+// reinstate puts back what name meant before a declaration that
+// failed: the entries of the registry only. The previous type itself is
+// not touched (registering it again would turn a builtin, or a type of
+// the host program, into a script struct).
+func (r *GoStructRegistryType) reinstate(name string, prev *RegisteredType, prevScript *RegisteredType) {
+	if prev != nil {
+		r.Registry[name] = prev
+	} else {
+		delete(r.Registry, name)
+		for i, n := range ListRegisteredTypes {
+			if n == name {
+				ListRegisteredTypes = append(ListRegisteredTypes[:i:i], ListRegisteredTypes[i+1:]...)
+				break
+			}
+		}
+	}
+	if prevScript != nil {
+		r.Scriptdef[name] = prevScript
+	} else {
+		delete(r.Scriptdef, name)
+	}
+}
+
 func (r *GoStructRegistryType) registerUser(
 	e *RegisteredType,
 	hasShadowStruct bool,
